@@ -7,7 +7,7 @@ CONSTANTS
   OutSet = {8, 9}
   Shapes = {{1, 3, 5, 6, 8}, {1, 2, 5, 8, 9}}
   Weights <- W2
-  PatternW = FALSE
+  PatternW = TRUE
   TdFlags = {FALSE}
   InVecs <- VecsQ
   OrderKinds = {"BIHO"}
